@@ -177,6 +177,52 @@ class HoistCallArgs(ast.NodeTransformer):
         return node
 
 
+class CommuteArith(ast.NodeTransformer):
+    """a * b -> b * a (operands free of calls, so evaluation order is unobservable; `+` is left alone: it also concatenates lists)"""
+
+    def visit_BinOp(self, node):
+        self.generic_visit(node)
+        if isinstance(node.op, (ast.Mult,)) and not any(isinstance(n, (ast.Call, ast.Constant)) and (isinstance(n, ast.Call) or isinstance(n.value, str)) for n in ast.walk(node)):
+            return ast.BinOp(left=node.right, op=node.op, right=node.left)
+        return node
+
+
+class AugToAssign(ast.NodeTransformer):
+    """x += y -> x = x + y for names and plain attributes (subscripts would re-evaluate their index: left alone)"""
+
+    def visit_AugAssign(self, node):
+        self.generic_visit(node)
+        if isinstance(node.target, (ast.Name, ast.Attribute)) and not (isinstance(node.target, ast.Attribute) and not isinstance(node.target.value, ast.Name)):
+            load = copy.deepcopy(node.target)
+            load.ctx = ast.Load()
+            return ast.Assign(targets=[node.target], value=ast.BinOp(left=load, op=node.op, right=node.value))
+        return node
+
+
+class SwapIfElse(ast.NodeTransformer):
+    """if c: A else: B  ->  if not c: B else: A   (only plain if/else, no elif chains)"""
+
+    def visit_If(self, node):
+        self.generic_visit(node)
+        if node.orelse and not (len(node.orelse) == 1 and isinstance(node.orelse[0], ast.If)):
+            return ast.If(test=ast.UnaryOp(op=ast.Not(), operand=node.test), body=node.orelse, orelse=node.body)
+        return node
+
+
+class CompStmtToFor(ast.NodeTransformer):
+    """[f(c) for c in xs if p] used as a statement -> for c in xs: if p: f(c)"""
+
+    def visit_Expr(self, node):
+        v = node.value
+        if isinstance(v, ast.ListComp) and len(v.generators) == 1:
+            g = v.generators[0]
+            body = [ast.Expr(value=v.elt)]
+            for cond in reversed(g.ifs):
+                body = [ast.If(test=cond, body=body, orelse=[])]
+            return ast.For(target=g.target, iter=g.iter, body=body, orelse=[])
+        return node
+
+
 def _apply(sources, transformer_factory):
     out = dict(sources)
     for f in PY_FILES:
@@ -216,6 +262,10 @@ def benign_variants(sources):
     v.append(("raise messages changed", _apply(sources, ChangeMessages)))
     v.append(("no-op statements inserted", _apply(sources, InsertNoops)))
     v.append(("call arguments hoisted into temporaries", _apply(sources, HoistCallArgs)))
+    v.append(("commutative operands swapped", _apply(sources, CommuteArith)))
+    v.append(("x += y -> x = x + y", _apply(sources, AugToAssign)))
+    v.append(("if/else branches swapped under a negated test", _apply(sources, SwapIfElse)))
+    v.append(("comprehension statements -> for loops", _apply(sources, CompStmtToFor)))
     for ll in (80, 120):
         r = _ruff(sources, ll)
         if r is not None:
